@@ -492,6 +492,7 @@ func (w *world) Exec(op hx.Zs) (out []hx.Zs) {
 	}
 	data := w.ti.BuildData(items)
 	fp, fd := w.ti.BuildFilter(true, fpA), w.ti.BuildFilter(false, fdA)
+	w.nestElements(fd, fdA)
 	w.evMu.Lock()
 	nev := len(w.events)
 	w.evMu.Unlock()
@@ -579,4 +580,67 @@ func (w *world) Exec(op hx.Zs) (out []hx.Zs) {
 		w.w.take()
 	}
 	return append(out, w.changed(nkept)...)
+}
+
+// nestElements: the elements part of a delete filter names a field with 1 (the empty tag, built by
+// harness/upd), 2 (a tag naming its first sub element) or 3 (a tag naming every sub element, and
+// the first sub-sub element of those that have any).  On the code as it is a named field is removed
+// as a whole whatever its tag contains, which is all the model needs to know.
+func (w *world) nestElements(fd *model.FilterType, a upd.Filter) {
+	if fd == nil || a.Elems == nil || w.ti.ElemFilterField < 0 {
+		return
+	}
+	ev := reflect.ValueOf(fd).Elem().Field(w.ti.ElemFilterField)
+	if ev.Kind() != reflect.Ptr || ev.IsNil() {
+		return
+	}
+	e := ev.Elem()
+	for j, v := range a.Elems {
+		if v < 2 || j >= e.NumField() {
+			continue
+		}
+		tag := e.Field(j)
+		if tag.Kind() != reflect.Ptr || tag.IsNil() || tag.Elem().Kind() != reflect.Struct {
+			continue
+		}
+		fillTag(tag.Elem(), v >= 3, 2)
+		stats["delete_elements_with_nested_tags"]++
+	}
+}
+
+// fillTag names sub elements of a tag struct: the first one, or all of them (and below them, while
+// depth lasts, the first one again)
+func fillTag(t reflect.Value, all bool, depth int) {
+	for i := 0; i < t.NumField(); i++ {
+		f := t.Field(i)
+		if f.Kind() != reflect.Ptr || f.Type().Elem().Kind() != reflect.Struct || !f.CanSet() {
+			continue
+		}
+		f.Set(reflect.New(f.Type().Elem()))
+		if depth > 1 && all {
+			fillTag(f.Elem(), false, depth-1)
+		}
+		if !all {
+			return
+		}
+	}
+}
+
+// subElements: how many sub elements the tag of elements field j can name (0: a plain ElementTagType)
+func subElements(ti *upd.TypeInfo, j int) int {
+	if ti.ElemType == nil || j >= ti.ElemType.NumField() {
+		return 0
+	}
+	t := ti.ElemType.Field(j).Type
+	if t.Kind() != reflect.Ptr || t.Elem().Kind() != reflect.Struct {
+		return 0
+	}
+	n := 0
+	for i := 0; i < t.Elem().NumField(); i++ {
+		f := t.Elem().Field(i)
+		if f.Type.Kind() == reflect.Ptr && f.Type.Elem().Kind() == reflect.Struct {
+			n++
+		}
+	}
+	return n
 }
